@@ -841,4 +841,209 @@ theorem fingerprint_quote (x : Bytes) (hx : x ≠ []) (q : UInt8) (F1 F2 : Nat) 
             · simp only [hl, ↓reduceIte, ok_bind, pure, Except.pure, Except.map]
             · simp only [hl, ↓reduceIte]
 
+/-! ### the verdict -/
+
+theorem contains_quote (q : UInt8) (hq : q = 39 ∨ q = 34) (x : Bytes) :
+    contains (q :: x) spPassword = contains x spPassword := by
+  rw [contains_cons]
+  have hsp : spPassword = 115 :: spPassword.tail := by decide +kernel
+  have : isPrefix spPassword (q :: x) = false := by
+    rw [hsp]
+    show ((115 : UInt8) == q && isPrefix spPassword.tail x) = false
+    have : ((115 : UInt8) == q) = false := by rcases hq with rfl | rfl <;> decide
+    rw [this]; rfl
+  rw [this, Bool.false_or]
+
+theorem wlInto_phi (q : UInt8) (t : Token) : wlInto (phiTok q t) = wlInto t := by
+  unfold wlInto
+  simp only [phiTok_cat, phiTok_len, phiTok_val]
+
+/-- the two-class whitelist, when the first token is not a number followed by a comment -/
+theorem wlTwo_phi (q : UInt8) (s : State) (fp : Bytes) (h1c : ∀ t0 t1, tvGet s 0 = .ok t0 → tvGet s 1 = .ok t1 → ¬ (t0.cat = 49 ∧ t1.cat = 99)) :
+    wlTwo (phiS q s) fp = wlTwo s fp := by
+  unfold wlTwo
+  simp only [tvGet_phi, phiS_toks]
+  cases h0 : tvGet s 0 with
+  | error e => rfl
+  | ok t0 =>
+    cases h1 : tvGet s 1 with
+    | error e => rfl
+    | ok t1 =>
+      have hne := h1c t0 t1 h0 h1
+      simp only [Except.map, ok_bind, phiTok_cat, phiTok_val, phiTok_len]
+      split
+      · rfl
+      · cases at' t1.val 0 with
+        | error e => rfl
+        | ok v0 =>
+          simp only [ok_bind]
+          have hc : (t0.cat == 49 && t1.cat == 99) = false := by
+            rw [Bool.eq_false_iff]
+            intro h
+            simp only [Bool.and_eq_true, beq_iff_eq] at h
+            exact hne h
+          have hc2 : (t0.cat == 49 && t1.cat == 99 && v0 != 47) = false := by rw [hc]; rfl
+          simp only [hc, hc2, Bool.false_eq_true, ↓reduceIte]
+
+/-- the three-class whitelist outside `sos` / `s&s` -/
+theorem wlThree_phi (q : UInt8) (s : State) (fp : Bytes) (hs : (fp == bs "sos" || fp == bs "s&s") = false) :
+    wlThree (phiS q s) fp = wlThree s fp := by
+  unfold wlThree
+  simp only [tvGet_phi, phiS_toks, hs, Bool.false_eq_true, ↓reduceIte]
+  refine beq2 _ _ _ _ (fun t0 => ?_)
+  refine beq2 _ _ _ _ (fun t1 => ?_)
+  refine beq2 _ _ _ _ (fun t2 => ?_)
+  simp only [wlInto_phi]
+
+theorem checkFingerprint_phi (q : UInt8) (hq : q = 39 ∨ q = 34) (s : State)
+    (hs : (s.fingerprint == bs "sos" || s.fingerprint == bs "s&s") = false)
+    (h1c : s.fingerprint.length = 2 → ∀ t0 t1, tvGet s 0 = .ok t0 → tvGet s 1 = .ok t1 → ¬ (t0.cat = 49 ∧ t1.cat = 99)) :
+    checkFingerprint (phiS q s) = checkFingerprint s := by
+  unfold checkFingerprint
+  have e1 : blacklist (phiS q s) = blacklist s := rfl
+  rw [e1]
+  refine (by
+    by_cases hb : blacklist s = true
+    · rw [if_pos hb, if_pos hb]
+      unfold notWhitelist
+      have e2 : (phiS q s).fingerprint = s.fingerprint := rfl
+      simp only [e2, phiS_input, contains_quote q hq, wlThree_phi q s _ hs]
+      by_cases h2 : (s.fingerprint.length == 2) = true
+      · have h2' : s.fingerprint.length = 2 := by simpa using h2
+        simp only [h2, ↓reduceIte, wlTwo_phi q s _ (h1c h2')]
+      · simp only [h2, Bool.false_eq_true, ↓reduceIte]
+    · rw [if_neg hb, if_neg hb])
+
+/-- final states of the two readings: image under `phiS`, or both collapsed to the `X` fingerprint -/
+def FinRel (q : UInt8) (st1 st2 : State) : Prop :=
+  st1 = phiS q st2 ∨ (st1.fingerprint = [88] ∧ st2.fingerprint = [88] ∧ st1.ddx = st2.ddx ∧ st1.hash = st2.hash)
+
+theorem fingerprint_quote_rel (x : Bytes) (hx : x ≠ []) (q : UInt8) (F1 F2 : Nat) (hq : q = 39 ∨ q = 34)
+    (hF1 : (hasFlag F1 flagQuoteSingle || hasFlag F1 flagQuoteDouble) = false) (hF10 : F1 ≠ 0)
+    (hF2 : (hasFlag F2 flagQuoteSingle || hasFlag F2 flagQuoteDouble) = true) (hF20 : F2 ≠ 0)
+    (hd : flag2Delim F2 = q) (hFF : F1 = asIs F2) (st1 st2 : State)
+    (h1 : fingerprint (q :: x) F1 = .ok st1) (h2 : fingerprint x F2 = .ok st2) : FinRel q st1 st2 := by
+  unfold fingerprint at h1 h2
+  dsimp only [] at h1 h2
+  rw [fold_quote x hx q F1 F2 hq hF1 hF10 hF2 hF20 hd hFF] at h1
+  cases hf : fold (sqliInit x F2) with
+  | error e => rw [hf] at h2; cases h2
+  | ok p =>
+    obtain ⟨n, s1⟩ := p
+    rw [hf] at h1 h2
+    simp only [mapNSP, Except.map, ok_bind, recatLast_phi] at h1 h2
+    cases hr : recatLast s1 n with
+    | error e => rw [hr] at h2; cases h2
+    | ok s2 =>
+      rw [hr] at h1 h2
+      simp only [Except.map, ok_bind, buildFp_phi, tvGet_phi] at h1 h2
+      cases hb : buildFp s2 n 0 [] 8 with
+      | error e => rw [hb] at h2; cases h2
+      | ok o =>
+        rw [hb] at h1 h2
+        simp only [ok_bind] at h1 h2
+        cases o with
+        | some fp =>
+          simp only [pure, Except.pure, Except.ok.injEq] at h1 h2
+          left
+          rw [← h1, ← h2]
+          rfl
+        | none =>
+          simp only [] at h1 h2
+          cases hg : tvGet s2 0 with
+          | error e => rw [hg] at h2; cases h2
+          | ok t0 =>
+            rw [hg] at h1 h2
+            simp only [Except.map, ok_bind] at h1 h2
+            unfold tvSet at h1 h2
+            simp only [phiS, List.length_map] at h1
+            by_cases hl : 0 < s2.tv.length
+            · simp only [hl, ↓reduceIte, ok_bind, pure, Except.pure, Except.ok.injEq] at h1 h2
+              right
+              rw [← h1, ← h2]
+              exact ⟨rfl, rfl, rfl, rfl⟩
+            · simp only [hl, ↓reduceIte] at h2
+              cases h2
+
+/-- a one-class fingerprint is never whitelisted -/
+theorem checkFingerprint_one (s : State) (h : s.fingerprint.length = 1) : checkFingerprint s = .ok (blacklist s) := by
+  unfold checkFingerprint notWhitelist
+  simp only [h]
+  cases blacklist s <;> rfl
+
+/-- **C12, quote shift, verdicts**: the two readings have the same fingerprint and the same MySQL re-parse
+flag, and the same verdict unless the fingerprint is `sos`, `s&s`, or the two-class `1c` (whose whitelist rule
+reads the input at the offset of the first token) -/
+theorem pass_quote (x : Bytes) (hx : x ≠ []) (q : UInt8) (F1 F2 : Nat) (hq : q = 39 ∨ q = 34)
+    (hF1 : (hasFlag F1 flagQuoteSingle || hasFlag F1 flagQuoteDouble) = false) (hF10 : F1 ≠ 0)
+    (hF2 : (hasFlag F2 flagQuoteSingle || hasFlag F2 flagQuoteDouble) = true) (hF20 : F2 ≠ 0)
+    (hd : flag2Delim F2 = q) (hFF : F1 = asIs F2) (a b : Bool × Bytes × Bool)
+    (ha : pass (q :: x) F1 = .ok a) (hb : pass x F2 = .ok b) :
+    a.2.1 = b.2.1 ∧ a.2.2 = b.2.2 ∧
+    (b.2.1 ≠ bs "sos" → b.2.1 ≠ bs "s&s" → b.2.1 ≠ [49, 99] → a.1 = b.1) := by
+  obtain ⟨st1, h1, _⟩ := fingerprint_ok (q :: x) F1
+  obtain ⟨st2, h2, hin2, hfp2⟩ := fingerprint_ok x F2
+  have hrel := fingerprint_quote_rel x hx q F1 F2 hq hF1 hF10 hF2 hF20 hd hFF st1 st2 h1 h2
+  unfold pass at ha hb
+  rw [h1] at ha
+  rw [h2] at hb
+  simp only [ok_bind] at ha hb
+  cases hc1 : checkFingerprint st1 with
+  | error e => rw [hc1] at ha; cases ha
+  | ok v1 =>
+    cases hc2 : checkFingerprint st2 with
+    | error e => rw [hc2] at hb; cases hb
+    | ok v2 =>
+      rw [hc1] at ha
+      rw [hc2] at hb
+      simp only [ok_bind, pure, Except.pure, Except.ok.injEq] at ha hb
+      subst ha hb
+      simp only []
+      rcases hrel with hrel | ⟨r1, r2, r3, r4⟩
+      · subst hrel
+        refine ⟨rfl, rfl, fun n1 n2 n3 => ?_⟩
+        have hs : (st2.fingerprint == bs "sos" || st2.fingerprint == bs "s&s") = false := by
+          rw [Bool.or_eq_false_iff]
+          exact ⟨by simpa using n1, by simpa using n2⟩
+        have h1c : st2.fingerprint.length = 2 → ∀ t0 t1, tvGet st2 0 = .ok t0 → tvGet st2 1 = .ok t1 → ¬ (t0.cat = 49 ∧ t1.cat = 99) := by
+          intro hlen t0 t1 g0 g1 hcat
+          rcases hfp2 with hX | ⟨hw, n, _, hfp, _⟩
+          · rw [hX] at hlen; simp at hlen
+          · apply n3
+            have hn : n = 2 := by
+              have := congrArg List.length hfp
+              have h8 := hw.1
+              rw [hlen] at this
+              simp only [List.length_map, List.length_take] at this
+              omega
+            rw [hfp, hn]
+            have e0 : st2.tv[0]? = some t0 := by
+              unfold tvGet at g0
+              cases h : st2.tv[0]? with
+              | none => rw [h] at g0; cases g0
+              | some y => rw [h] at g0; cases g0; rfl
+            have e1 : st2.tv[1]? = some t1 := by
+              unfold tvGet at g1
+              cases h : st2.tv[1]? with
+              | none => rw [h] at g1; cases g1
+              | some y => rw [h] at g1; cases g1; rfl
+            match hv : st2.tv, e0, e1 with
+            | y0 :: y1 :: rest, e0, e1 =>
+              simp only [List.getElem?_cons_zero, List.getElem?_cons_succ, Option.some.injEq] at e0 e1
+              subst e0 e1
+              simp [hcat.1, hcat.2]
+        have := checkFingerprint_phi q hq st2 hs h1c
+        rw [this, hc2] at hc1
+        exact (Except.ok.inj hc1).symm
+      · refine ⟨by rw [r1, r2], by unfold reparseAsMySQL; rw [r3, r4], fun _ _ _ => ?_⟩
+        have e1 := checkFingerprint_one st1 (by rw [r1]; rfl)
+        have e2 := checkFingerprint_one st2 (by rw [r2]; rfl)
+        have hbl : blacklist st1 = blacklist st2 := by unfold blacklist; rw [r1, r2]
+        rw [e1] at hc1
+        rw [e2] at hc2
+        have := Except.ok.inj hc1
+        have := Except.ok.inj hc2
+        subst_vars
+        exact hbl
+
 end LibInj.Sqli
